@@ -311,6 +311,37 @@ Section SoEModel.
     mu = None \/ mu = Some (complete n).
 End SoEModel.
 
+(* ---- EigenSolve, sparse branch (modules/linalg.py _sparse_eigs): the shift-invert operator Ainv is created on the
+        first response (`if self.Ainv is None: ...; self.do_solve = True`), `if self.sigma != 0: self.do_solve = True`,
+        and `if self.do_solve: self.Ainv.update(mat_shifted)`; do_solve is never cleared.  Memory = (factorisation
+        held by Ainv, do_solve). *)
+Section EigenSolveModel.
+  Context {K : Type} `{NK : Num K}.
+  Variable F : Type.                                            (* a factorisation *)
+  Variable factorise : list K -> F.                             (* Ainv.update(mat_shifted) *)
+  Variable shifted : list (list K) -> list K.                   (* A - sigma B from the inputs *)
+  Variable sigma_nonzero : bool.
+  Variable eigs : F -> list (list K) -> list (list K).          (* ARPACK with OPinv = the factorisation; post-processing *)
+  Variable eig_adj : list (list K) -> list (list K) -> list (list K) -> list (option (list K)).
+
+  Definition eigensolve_h (ins : list ref) (outs : list nat) : hmod (option F * bool) :=
+    {| h_ins := ins; h_outs := outs;
+       h_resp := fun mu xs =>
+                   let created := match fst mu with None => true | Some _ => false end in
+                   let do_solve := snd mu || created || sigma_nonzero in
+                   let Fk := if do_solve then factorise (shifted xs)
+                             else match fst mu with Some f => f | None => factorise (shifted xs) end in
+                   ((Some Fk, do_solve), eigs Fk xs);
+       h_sens := fun _ xs ys ws => eig_adj xs ys ws |}.
+  Definition eigensolve_f (xs : list (list K)) : list (list K) := eigs (factorise (shifted xs)) xs.
+  (* the factorisation in use is the one of the matrix of the latest response *)
+  Definition eigensolve_good (mu : option F * bool) (last : option (list (list K))) : Prop :=
+    match last with
+    | None => mu = (None, false)
+    | Some xs => mu = (Some (factorise (shifted xs)), true)
+    end.
+End EigenSolveModel.
+
 (* =====================================================================================================
    Executable modules used by the correspondence (integer-exact core of tools/checks/C03.py) *)
 From Coq Require Import ZArith.
@@ -360,6 +391,31 @@ Section ExecModules.
   Definition start (dl : list nat) (keepl : list nat) (mods : list (hmod zmem)) (inputs : list (list Z)) : nst zmem :=
     fresh (dims_of dl) (keep_of keepl) mods (map (fun _ => None) mods) (env_of inputs).
 End ExecModules.
+
+(* ---- why the matrix class must stay constant within a history: LinSolve caches `ishermitian` (and the solver chosen
+   from it) at the first response.  Concrete 2x2 integer instance: a symmetric-matrix solver reads the lower triangle
+   only; matrices of determinant +-1 are solved exactly over Z (x = det * adj(A) b). *)
+Section ClassFlagModel.
+  Local Open Scope Z_scope.
+  Definition m2 (A : list Z) (i : nat) : Z := nth i A 0.                 (* row major [a; b; c; d] *)
+  Definition det2 (A : list Z) : Z := m2 A 0 * m2 A 3 - m2 A 1 * m2 A 2.
+  Definition solve2 (A b : list Z) : list Z :=
+    [det2 A * (m2 A 3 * nth 0 b 0 - m2 A 1 * nth 1 b 0); det2 A * (m2 A 0 * nth 1 b 0 - m2 A 2 * nth 0 b 0)].
+  Definition is_sym2 (A : list Z) : bool := Z.eqb (m2 A 1) (m2 A 2).
+  Definition mirror_lower (A : list Z) : list Z := [m2 A 0; m2 A 2; m2 A 2; m2 A 3].
+  (* self.ishermitian is determined by the FIRST matrix and kept *)
+  Definition flagged_linsolve_h : hmod (option bool) :=
+    {| h_ins := [RSig 0; RSig 1]; h_outs := [2%nat];
+       h_resp := fun mu xs =>
+                   let flag := match mu with Some f => f | None => is_sym2 (nth 0 xs []) end in
+                   let A := if flag then mirror_lower (nth 0 xs []) else nth 0 xs [] in
+                   (Some flag, [solve2 A (nth 1 xs [])]);
+       h_sens := fun _ _ _ _ => [None; None] |}.
+  Definition cls_hist : list (@op Z) := [OSet 0 [1; 1; 1; 2]; OSet 1 [3; 1]; OResp; OSet 0 [1; 2; 0; 1]; OResp].
+  Definition cls_fresh : list (@op Z) := [OSet 0 [1; 2; 0; 1]; OSet 1 [3; 1]; OResp].
+  Definition cls_start : nst (option bool) :=
+    fresh (dims_of [4; 2; 2]%nat) (fun _ => false) [flagged_linsolve_h] [None] (fun _ => []).
+End ClassFlagModel.
 
 (* ---- the example network of Props/C03.v (definitions only):
    0 = x (3, input), 1 = p (2, input, constructed with a sensitivity array: keep_alloc), 2 = a = A x[[0,2]],
